@@ -4,6 +4,7 @@ import (
 	"fmt"
 	"go/token"
 	"go/types"
+	"reflect"
 	"strings"
 
 	"golang.org/x/tools/go/ssa"
@@ -650,4 +651,107 @@ func reachedOnlyByKindEdges(b *ssa.BasicBlock, v ssa.Value) ([]int64, bool) {
 		ks = append(ks, k)
 	}
 	return ks, true
+}
+
+// REFLECT-KIND-API: reflect.MakeSlice(t, …) panics unless t.Kind() == Slice (an array type is NOT accepted). Every call
+// whose type argument is not built by reflect.SliceOf must sit on an arm entered only over `Kind() == reflect.Slice`
+// edges; an arm shared with reflect.Array (`case reflect.Slice, reflect.Array:`) is reported.
+type makeSliceSite struct {
+	fn    *ssa.Function
+	call  *ssa.Call
+	kinds []int64
+	known bool
+}
+
+func makeSliceSites(fns []*ssa.Function) []makeSliceSite {
+	var out []makeSliceSite
+	isKindCall := func(v ssa.Value) bool {
+		c, ok := v.(*ssa.Call)
+		if !ok {
+			return false
+		}
+		if c.Call.IsInvoke() {
+			return c.Call.Method.Name() == "Kind"
+		}
+		return calleeFullName(c) == "(reflect.Value).Kind"
+	}
+	var kindsInto func(b *ssa.BasicBlock, depth int) ([]int64, bool)
+	kindsInto = func(b *ssa.BasicBlock, depth int) ([]int64, bool) {
+		if depth > 3 || len(b.Preds) == 0 {
+			return nil, false
+		}
+		var ks []int64
+		for _, p := range b.Preds {
+			iff, ok := p.Instrs[len(p.Instrs)-1].(*ssa.If)
+			if !ok {
+				// a straight-line predecessor: look through it
+				if len(p.Succs) == 1 {
+					sub, ok := kindsInto(p, depth+1)
+					if !ok {
+						return nil, false
+					}
+					ks = append(ks, sub...)
+					continue
+				}
+				return nil, false
+			}
+			op, x, y, isCmp := asCmp(iff.Cond)
+			k, isConst := constInt(y)
+			if !isCmp || !isKindCall(x) || !isConst {
+				return nil, false
+			}
+			if (op == token.EQL && p.Succs[0] == b) || (op == token.NEQ && p.Succs[1] == b) {
+				ks = append(ks, k)
+				continue
+			}
+			return nil, false
+		}
+		return ks, true
+	}
+	for _, fn := range fns {
+		instrs(fn, func(in ssa.Instruction) {
+			c, ok := in.(*ssa.Call)
+			if !ok || calleeFullName(c) != "reflect.MakeSlice" {
+				return
+			}
+			if tc, ok := c.Call.Args[0].(*ssa.Call); ok && calleeFullName(tc) == "reflect.SliceOf" {
+				return
+			}
+			// walk up: the block itself or a dominating arm entered over kind edges
+			site := makeSliceSite{fn: fn, call: c}
+			for b := c.Block(); b != nil; b = b.Idom() {
+				if ks, ok := kindsInto(b, 0); ok {
+					site.kinds, site.known = ks, true
+					break
+				}
+				if len(b.Preds) != 1 {
+					break
+				}
+			}
+			out = append(out, site)
+		})
+	}
+	return out
+}
+
+func ruleMakeSliceKind(w *World, r *Report, rule string, pkgs ...string) int {
+	const kindSlice = 23
+	sites := makeSliceSites(w.RepoFuncs(pkgs...))
+	for i, s := range sites {
+		construct := fmt.Sprintf("reflect.MakeSlice #%d in %s", i+1, w.fname(origin(s.fn)))
+		good := s.known && len(s.kinds) > 0
+		var others []string
+		for _, k := range s.kinds {
+			if k != kindSlice {
+				good = false
+				others = append(others, reflect.Kind(k).String())
+			}
+		}
+		det := "the call is not on an arm selected by the type's kind"
+		if s.known {
+			det = "the arm is also entered for kind " + strings.Join(others, ", ")
+		}
+		r.Check(good, rule, construct, s.call.Pos(), "reached only over Kind() == reflect.Slice", det+": reflect.MakeSlice panics ('MakeSlice of non-slice type') for an array type — an accepted mapping into an array-typed input (or the zero input of such a node) takes every run down with a panic instead of delivering the value")
+	}
+	return len(sites)
 }
